@@ -245,6 +245,13 @@ class TauPexit(TauEnergy):
 class TausCall(TauEnergy):
     name = "taus.__call__"
 
+    def call_bad(self, obj, arrays, c):
+        beta, log_e = arrays[0], arrays[1]
+        bad_e = np.array(log_e, dtype=np.float64)
+        bad_e[len(bad_e) // 2] = 12.5  # outside the tables: the whole-module call is refused
+        with scripted(np.full(2 * int(np.size(beta)) + 8, c)):
+            obj(np.clip(np.array(beta, dtype=np.float64), BETA_MIN, BETA_MAX), bad_e)
+
     def inputs(self, case, n):
         beta, log_e, u = super().inputs(case, n)
         return (np.clip(beta, 0.0, BETA_MAX), log_e)
